@@ -56,6 +56,8 @@ class MasterGen:
                 "dis": self.disabled and r.random() < 0.06, "expert": r.choice([None, None, None, 0, 1, 2]),
                 "help": r.choice([None, None, "some help"]), "further": [],
                 "deprecated": self.deprecated and not mult and r.random() < 0.12}
+        if self.deprecated and not node["deprecated"] and r.random() < 0.06:
+            node["deprecated_false"] = r.choice(["False", "false", "no", "0", "None"])
         if mult and self.further and not node["dis"] and r.random() < 0.4:
             node["further"] = [r.choice(TYPES[t][1] or [dv]) for _ in range(r.choice([1, 2]))]
         if mult and self.disabled and not node["dis"] and r.random() < 0.25:
@@ -114,6 +116,8 @@ def attr_lines(node, indent):
         s += "%s  .expert_level = %d\n" % (indent, node["expert"])
     if node.get("deprecated"):
         s += "%s  .deprecated = True\n" % indent
+    elif node.get("deprecated_false"):
+        s += "%s  .deprecated = %s\n" % (indent, node["deprecated_false"])      # spelt out, still not deprecated
     return s
 
 
